@@ -60,6 +60,9 @@ fn gen02(t: &mut Tape, tier: Tier) -> Scenario {
         if c.ctrl >= 0x80 && c.payload_len == 5 {
             flags |= 16384;
         }
+        if c.ctrl >= 0x80 && c.payload_len == 65536 {
+            flags |= 32768;
+        }
     }
     sc.set_i("flags", flags);
     sc.set_i("nchunks", b.chunks.len() as u64);
@@ -139,7 +142,7 @@ fn exec02(sc: &Scenario, ctx: &mut Ctx) -> Vec<Violation> {
         ctx.stats.hit("probe.256_or_more_chunks");
     }
     ctx.stats.max("max_chunks_in_one_stream", sc.i("nchunks"));
-    let names: [&'static str; 15] = [
+    let names: [&'static str; 16] = [
         "probe.uncompressed_chunk_with_dictionary_reset",
         "probe.uncompressed_chunk_without_reset",
         "probe.lzma_chunk_no_reset",
@@ -155,6 +158,7 @@ fn exec02(sc: &Scenario, ctx: &mut Ctx) -> Vec<Violation> {
         "probe.lzma_chunk_above_1MB_unpacked",
         "probe.lzma_chunk_above_60000_packed",
         "probe.lzma_chunk_with_5_byte_payload",
+        "probe.lzma_chunk_with_65536_byte_payload_the_field_maximum",
     ];
     for (i, n) in names.iter().enumerate() {
         if f & (1 << i) != 0 {
